@@ -392,7 +392,8 @@ def wide():
     pairs = [[0, 1], [2, 10], [3, 11], [10, 11], [1, 2, 10], [4, 5], [5, 6], [6, 7], [7, 8], [8, 9], [9, 11], [0, 11, 3]]
     a = H(pairs, nodes=list(range(12)))
     b = relabel(a, node_map={i: "n%d" % i for i in range(12)}, edge_ids=["e%d" % i for i in range(len(pairs))])
-    c = relabel(a, node_map={i: 100 - 7 * i for i in range(12)}, edge_ids=[50 - 3 * i for i in range(len(pairs))], reverse_nodes=True)
+    # integers above 256 are not shared objects in CPython: an ID named by value is equal to, not identical with, the stored one
+    c = relabel(a, node_map={i: 1000 - 7 * i for i in range(12)}, edge_ids=[500 - 3 * i for i in range(len(pairs))], reverse_nodes=True)
     return [a, b, c]
 
 
